@@ -73,6 +73,12 @@ def streams(gen):
     out["all"] = names
     out["repeat"] = ["version"] * 8
     out["long_frame"] = ["long_status", "version"]
+    # a frame near the top of what the 16-bit length word allows (an unknown type: delivered
+    # unchanged), with ordinary frames around it
+    cat["huge_unknown"] = R.frame(gen, R.ADDR_CLIENT, 0x80, 78, 0x47, rr.randbytes(20000))
+    cat["max_unknown"] = R.frame(gen, R.ADDR_CLIENT, 0x80, 79, 0x47,
+                                 rr.randbytes(65535 if gen == 4 else 65523))
+    out["huge_frame"] = ["version", "huge_unknown", "version", "max_unknown", "version"]
     return {k: b"".join(cat[n] for n in v) for k, v in out.items()}, \
            {k: len(v) for k, v in out.items()}
 
@@ -263,7 +269,7 @@ def cases(tier, seed):
         quick_streams = ["version", "status_pair", "handshake", "unknowns"]
         for sname in sorted(st):
             n = len(st[sname])
-            full = tier == "thorough" or sname in quick_streams
+            full = (tier == "thorough" or sname in quick_streams) and sname != "huge_frame"
             yield {"k": "base", "gen": gen, "stream": sname}
             yield {"k": "cuts", "gen": gen, "stream": sname, "gap": "same_turn",
                    "cuts": [list(range(1, n))]}  # byte at a time
